@@ -12,6 +12,7 @@ import numpy as np
 
 from rv import core, fcsgen, layouts
 
+ANCHORS = ['read_fcs_header_segment', 'read_fcs_data_segment', 'FCSFile.__init__']      # functions the property is anchored in: never entered => inconclusive
 LEVEL = 'exploration'
 LEVEL_TEXT = 'Every cell of the layout lattice (version x kind x byte order x range kind x offset placement x end convention x padding) is visited with random widths/shapes/values; both observation points are compared cell by cell with a matrix encoded by an independent writer; a refusal family must raise; a load-scribble-reload history guards against shared buffers. Held on the executions observed; exhaustive only over the categorical dims.'
 TECHNIQUE = 'runtime contract on the loader vs an independently encoded matrix over a layout lattice + load history'
